@@ -191,6 +191,22 @@ def check(ctx: Ctx) -> str:
                     ctx.check(ok, f"{mod}:{q}:next(iter({txt}))", f"{mod}:{q}", f"next(iter({txt})) on a non-singleton", f"next(iter({txt})) picks an arbitrary element unless len({txt}) == 1", f"{m.rel}:{node.lineno}")
                     continue
                 why = ORDER_FREE.get((mod, q, txt)) or ORDER_FREE.get((mod, q, _origin(fn, target)))
+                if why is not None and (mod, q) == ("idtracking", "Symbols.branch_update") and isinstance(node, ast.For):
+                    # the reviewed reason has a premise: every key this loop writes was inserted
+                    # before, in branch order, by `self.loads.update(<branch>.loads)` - and the
+                    # loop itself only assigns self.loads[...] (no other ordered structure)
+                    pre = [c for c in astq.calls(fn) if astq.callee(c) == "self.loads.update" and c.args and ast.unparse(c.args[0]).endswith(".loads") and (c.lineno, c.col_offset) < (node.lineno, node.col_offset)]
+                    pre_loop = False
+                    for c_ in pre:
+                        p_ = getattr(c_, "_parent", None)
+                        while p_ is not None and p_ is not fn:
+                            if isinstance(p_, ast.For) and not any(isinstance(x, (ast.Break, ast.Continue)) for x in ast.walk(p_)):
+                                pre_loop = True
+                            p_ = getattr(p_, "_parent", None)
+                    other_writes = [c for c in astq.calls(node) if isinstance(c.func, ast.Attribute) and c.func.attr in ("append", "add", "setdefault", "update", "insert", "extend", "write", "writeline")]
+                    if not (pre_loop and not other_writes):
+                        why = None
+                        txt = txt + " (keys not inserted beforehand)"
                 ctx.check(why is not None, f"{mod}:{q}:{txt}", f"{mod}:{q}", f"unsorted iteration over the set `{txt}` ({kind})",
                           f"{mod}.{q} iterates the set `{txt}` ({kind}) in hash order: the order depends on PYTHONHASHSEED, and what is derived from it (dict insertion order, emitted text) makes the generated source differ between processes",
                           f"{m.rel}:{getattr(node, 'lineno', fn.lineno)}", detail={"site": f"{mod}:{q}", "iterates": txt, "why_order_free": why})
